@@ -118,6 +118,14 @@ func c09Run(c c09Case) error {
 		tp := mk()
 		tp.Chunks = ch
 		r := c09Once(g, tp)
+		if (r.Panic != nil || r.Err) && !r.HavePw && base.HavePw {
+			// the statement's second sentence: a read that delivers fewer bytes
+			// than requested may also be treated as a failure of the source -
+			// aborting is then the stated behaviour. What is excluded is going on
+			// with other choices.
+			ev.Class("short_read_aborts")
+			continue
+		}
 		if r.Panic != nil {
 			return fmt.Errorf("short (but successful) reads %v made Generate panic: %v", ch, r.Panic)
 		}
